@@ -76,20 +76,28 @@ Definition w_flags (cs : wcfg * @wst H H) : list bool :=
    histories are cleared before each atomic call and the per-call traces concatenated *)
 Definition w_atomic (k : call) : list call :=
   match k with Integrate n => repeat Step n ++ [Synchronize] | _ => [k] end.
-Fixpoint w_atoms (dt : float) (cs : wcfg * @wst H H) (l : list call) (acc : option H) : (wcfg * @wst H H) * option H :=
+(* API calls of the correspondence: the calls of the model, plus integrate with exact_finish_time = 1
+   (n full steps, synchronize, one step of dt', synchronize with dt': Model.w_integrate_exact) *)
+Inductive wx := WX (k : call) | WXExact (n : nat) (dt' : float).
+Definition wx_atoms (dt : float) (k : wx) : list (float * call) :=
+  match k with
+  | WX k => map (pair dt) (w_atomic k)
+  | WXExact n dt' => map (pair dt) (repeat Step n ++ [Synchronize]) ++ [(dt', Step); (dt', Synchronize)]
+  end.
+Fixpoint w_atoms (cs : wcfg * @wst H H) (l : list (float * call)) (acc : option H) : (wcfg * @wst H H) * option H :=
   match l with
   | [] => (cs, acc)
-  | k :: r =>
+  | (dt, k) :: r =>
       let cs1 := w_api FNum WLog dt (fst cs, clear_w (snd cs)) k in
       let acc1 := match acc, call_trace (part (snd cs1)) (pjh (snd cs1)) with
                   | Some a, Some b => Some (a ++ b) | _, _ => None end in
-      w_atoms dt cs1 r acc1
+      w_atoms cs1 r acc1
   end.
-Fixpoint w_trace (dt : float) (cs : wcfg * @wst H H) (w : list call) : list (option H * list bool) :=
+Fixpoint w_trace (dt : float) (cs : wcfg * @wst H H) (w : list wx) : list (option H * list bool) :=
   match w with
   | [] => []
   | k :: r =>
-      let '(cs1, tr) := w_atoms dt cs (w_atomic k) (Some []) in
+      let '(cs1, tr) := w_atoms cs (wx_atoms dt k) (Some []) in
       (tr, w_flags cs1) :: w_trace dt cs1 r
   end.
 
@@ -108,7 +116,7 @@ Fixpoint cmp_from (n : nat) (m : list (option H * list bool)) (e : list (H * lis
       if tr_ok && bools_eqb f f' then cmp_from (S n) r s else n :: cmp_from (S n) r s
   | _, _ => [n]
   end.
-Definition w_bad (dt : float) (c : wcfg) (w : list call) (expected : list (H * list bool * bool)) : list nat :=
+Definition w_bad (dt : float) (c : wcfg) (w : list wx) (expected : list (H * list bool * bool)) : list nat :=
   cmp_from 0 (w_trace dt (c, w_fresh) w) expected.
 
 (* ---------------------------------------------------------------- SABA *)
@@ -127,24 +135,30 @@ Definition clear_s (s : @sst H H) : @sst H H :=
 Definition s_flags (c : @scfg float) (s : @sst H H) : list bool := [s_is_sync s; s_recalc s; s_safe c; s_keep c].
 Definition s_atomic (k : scall) : list scall :=
   match k with SIntegrate n => repeat SStep n ++ [SSynchronize] | _ => [k] end.
-Fixpoint s_atoms (dt : float) (c : @scfg float) (s : @sst H H) (l : list scall) (acc : option H) : @sst H H * option H :=
+Inductive sx := SX (k : scall) | SXExact (n : nat) (dt' : float).
+Definition sx_atoms (dt : float) (k : sx) : list (float * scall) :=
+  match k with
+  | SX k => map (pair dt) (s_atomic k)
+  | SXExact n dt' => map (pair dt) (repeat SStep n ++ [SSynchronize]) ++ [(dt', SStep); (dt', SSynchronize)]
+  end.
+Fixpoint s_atoms (c : @scfg float) (s : @sst H H) (l : list (float * scall)) (acc : option H) : @sst H H * option H :=
   match l with
   | [] => (s, acc)
-  | k :: r =>
+  | (dt, k) :: r =>
       let s1 := s_api FNum SLog dt c (clear_s s) k in
       let acc1 := match acc, call_trace (spart s1) (spjh s1) with Some a, Some b => Some (a ++ b) | _, _ => None end in
-      s_atoms dt c s1 r acc1
+      s_atoms c s1 r acc1
   end.
-Fixpoint s_trace (dt : float) (c : @scfg float) (s : @sst H H) (w : list scall) : list (option H * list bool) :=
+Fixpoint s_trace (dt : float) (c : @scfg float) (s : @sst H H) (w : list sx) : list (option H * list bool) :=
   match w with
   | [] => []
   | k :: r =>
-      let '(s1, tr) := s_atoms dt c s (s_atomic k) (Some []) in
+      let '(s1, tr) := s_atoms c s (sx_atoms dt k) (Some []) in
       (tr, s_flags c s1) :: s_trace dt c s1 r
   end.
 Definition s_fresh : @sst H H :=
   {| spart := []; spjh := []; s_is_sync := true; s_recalc := false; s_alloc := false; s_crashed := false |}.
-Definition s_bad (dt : float) (c : @scfg float) (w : list scall) (expected : list (H * list bool * bool)) : list nat :=
+Definition s_bad (dt : float) (c : @scfg float) (w : list sx) (expected : list (H * list bool * bool)) : list nat :=
   cmp_from 0 (s_trace dt c s_fresh w) expected.
 
 (* ---------------------------------------------------------------- MERCURIUS *)
@@ -214,3 +228,26 @@ Definition toy_cfg (safe keep var : bool) : wcfg :=
 Definition toy0 : @wst ZZ ZZ := {| part := (0, 0)%Z; pjh := (0, 0)%Z; is_sync := true; recalc := false; alloc := false |}.
 Definition toy_final (safe keep var : bool) (n : nat) : ZZ :=
   let c := toy_cfg safe keep var in part (w_sync ZNum WToy 2%Z c (iter n (w_step ZNum WToy 2%Z c) toy0)).
+
+(* exact finishing with keep_unsynchronized on the law-abiding instance: dt = 4, n = 3 full steps, last step dt' = 2 *)
+Definition toy_exact (safe keep : bool) : ZZ :=
+  let c := toy_cfg safe keep false in
+  part (w_integrate_exact ZNum WToy 4%Z 2%Z 3 c toy0).
+
+(* ---------------------------------------------------------------- WHFast512: flags only *)
+Definition XUnit : @XOps float unit unit := {|
+  x_kepler := fun _ j => j; x_com := fun _ j => j; x_jump := fun _ j => j; x_interaction := fun _ j => j;
+  x_to_dh := fun _ => tt; x_to_inertial := fun _ => tt |}.
+Fixpoint x_flags (keep gr : bool) (s : @xst unit unit) (w : list xcall) : list bool :=
+  match w with
+  | [] => []
+  | k :: r => let s1 := x_api FNum XUnit 0x1p-3%float keep gr s k in x_is_sync s1 :: x_flags keep gr s1 r
+  end.
+Definition x_bad (keep gr : bool) (w : list xcall) (expected : list bool) : list nat :=
+  let m := x_flags keep gr {| xpart := tt; xpjh := tt; x_is_sync := true |} w in
+  let fix go (n : nat) (a b : list bool) : list nat :=
+    match a, b with
+    | [], [] => []
+    | x :: r, y :: t => if Bool.eqb x y then go (S n) r t else n :: go (S n) r t
+    | _, _ => [n]
+    end in go 0%nat m expected.
